@@ -32,6 +32,7 @@ fn contents() -> Vec<String> {
         "\n".into(),
         "\r\n".into(),
         "a\n\nb \n".into(),
+        "\u{feff}abc\n".into(), // starts with a byte-order mark: content like any other
     ]
 }
 
@@ -55,6 +56,7 @@ fn gots(content: Option<&str>) -> Vec<String> {
     add(n.trim_end_matches('\n').to_string());
     add(format!("{} ", n));
     add(n.replace('\r', "")); // every CR stripped
+    add(n.trim_start_matches('\u{feff}').to_string()); // a leading byte-order mark stripped
     add(n.replace('\n', "\r\n"));
     if let Some(c) = n.chars().next() {
         let repl = if c == 'x' { 'y' } else { 'x' };
@@ -70,14 +72,28 @@ fn gots(content: Option<&str>) -> Vec<String> {
     v
 }
 
-fn plan() -> Vec<(Option<&'static str>, Option<String>, String)> {
+/// (UPDATE_GOLDEN at Golden::new, value it is switched to before Golden::assert)
+const SWITCHES: &[(Option<&str>, Option<&str>)] = &[(Some("1"), None), (None, Some("1")), (Some("1"), Some("")), (Some(""), Some("yes"))];
+
+type Case = (Option<&'static str>, Option<String>, String, Option<Option<&'static str>>);
+
+fn plan() -> Vec<Case> {
     let mut out = Vec::new();
     let mut goldens: Vec<Option<String>> = vec![None];
     goldens.extend(contents().into_iter().map(Some));
     for env in ENVS {
         for g in &goldens {
             for got in gots(g.as_deref()) {
-                out.push((*env, g.clone(), got));
+                out.push((*env, g.clone(), got, None));
+            }
+        }
+    }
+    // one long-lived Golden value while the variable changes between `new` and `assert`
+    let some: Vec<Option<String>> = vec![None, Some("a\n".into()), Some("a\r\nb\n".into()), Some("日本語のテキスト\n".into())];
+    for (at_new, at_assert) in SWITCHES {
+        for g in &some {
+            for got in gots(g.as_deref()) {
+                out.push((*at_new, g.clone(), got, Some(*at_assert)));
             }
         }
     }
@@ -162,7 +178,7 @@ impl Check for C20 {
     }
     fn run(&self, ctx: &Ctx, idx: u64, rec: &mut Recorder) {
         let p = plan();
-        let (env, golden, got) = p[idx as usize].clone();
+        let (env, golden, got, switch) = p[idx as usize].clone();
         let probe = std::env::var("VERIF_GOLDEN_PROBE").ok().filter(|s| !s.is_empty()).map(PathBuf::from).unwrap_or_else(|| PathBuf::from(format!("{}/.build/harness/verif/golden_probe", VERIF_ROOT)));
         let base = ctx.scratch.join(format!("c20-{}", idx));
         let dir = base.join("golden-dir");
@@ -195,7 +211,19 @@ impl Check for C20 {
         if let Some(v) = env {
             cmd.env("UPDATE_GOLDEN", v);
         }
-        let label = format!("UPDATE_GOLDEN={:?} golden={} got={}", env, golden.as_deref().map(show).unwrap_or("<absent>".into()), show(&got));
+        match switch {
+            Some(None) => {
+                cmd.arg("unset");
+            }
+            Some(Some(v)) => {
+                cmd.arg(format!("set:{}", v));
+            }
+            None => {}
+        }
+        let new_env = env;
+        // what `assert` sees
+        let env = switch.unwrap_or(env);
+        let label = format!("UPDATE_GOLDEN={:?}{} golden={} got={}", new_env, if switch.is_some() { format!(" then {:?} before assert", env) } else { String::new() }, golden.as_deref().map(show).unwrap_or("<absent>".into()), show(&got));
         rec.op("Golden::new + assert (probe process)", &label);
         let out = match cmd.output() {
             Ok(o) => o,
@@ -224,8 +252,26 @@ impl Check for C20 {
             Some("") => "empty",
             Some(_) => "lf",
         };
-        let wit = || json!({"UPDATE_GOLDEN": env, "golden": golden, "got": got, "exit": code, "signal": out.status.signal(), "stdout": stdout, "stderr": stderr.chars().take(600).collect::<String>(), "before": before.iter().map(|s| (&s.name, s.bytes.len())).collect::<Vec<_>>(), "after": after.iter().map(|s| (&s.name, s.bytes.len())).collect::<Vec<_>>()});
-        let class = format!("env={}|golden={}", env_class, golden_class);
+        let wit = || json!({"UPDATE_GOLDEN": env, "UPDATE_GOLDEN_at_new": new_env, "switched": switch.is_some(), "golden": golden, "got": got, "exit": code, "signal": out.status.signal(), "stdout": stdout, "stderr": stderr.chars().take(600).collect::<String>(), "before": before.iter().map(|s| (&s.name, s.bytes.len())).collect::<Vec<_>>(), "after": after.iter().map(|s| (&s.name, s.bytes.len())).collect::<Vec<_>>()});
+        let class = format!("env={}{}|golden={}", if switch.is_some() { "switched-to-" } else { "" }, env_class, golden_class);
+        if switch.is_some() {
+            rec.count("variable-switched-between-new-and-assert");
+        }
+        if switch.is_some() && golden.is_none() {
+            // which of the two readings decides about a missing file is not laid down; writing without
+            // the variable at assert time is
+            if !update {
+                let log = std::fs::read_to_string(&trace_path).unwrap_or_default();
+                let evs = write_events(&log);
+                if before != after || !evs.is_empty() {
+                    rec.violation("disk-modified-without-update-golden", &class, &format!("UPDATE_GOLDEN {} at assert time, golden absent: the directory changed or write-class system calls were made: {}", env_class, evs.join(" ;; ")), wit());
+                } else {
+                    rec.count("disk:unchanged");
+                }
+            }
+            let _ = std::fs::remove_dir_all(&base);
+            return;
+        }
         if code.is_none() || !matches!(code, Some(0) | Some(3) | Some(101)) {
             rec.violation("probe-abnormal-exit", &class, &format!("probe ended with {:?}", out.status), wit());
             let _ = std::fs::remove_dir_all(&base);
@@ -293,9 +339,9 @@ impl Check for C20 {
     }
     fn rule(&self) -> String {
         "Exhaustive over the pools: UPDATE_GOLDEN in {unset, \"\", \"1\", \"0\", \"yes\"} x golden file in {absent, 15 contents: empty, with and without final \
-         newline, CRLF, mixed CRLF/LF, non-ASCII, 120 lines (LF and CRLF), bare CR inside a line, CR at end of file, CR CR LF, lone newline, trailing spaces} x `got` \
-         in {the content CRLF-normalised, un-normalised, plus / minus a final newline, trailing space, all CR stripped, LF->CRLF, first / last code point changed, empty, \
-         unrelated}. Each combination runs the real okane-golden helper (Golden::new then assert) in a fresh process inside a fresh directory that also holds a \
+         newline, CRLF, mixed CRLF/LF, non-ASCII, 120 lines (LF and CRLF), bare CR inside a line, CR at end of file, CR CR LF, lone newline, trailing spaces, leading byte-order mark} x `got` \
+         in {the content CRLF-normalised, un-normalised, plus / minus a final newline, trailing space, all CR stripped, LF->CRLF, first / last code point changed, leading byte-order mark stripped, empty, \
+         unrelated}; plus, for 4 goldens, the variable switched between Golden::new and Golden::assert (\"1\"->unset, unset->\"1\", \"1\"->\"\", \"\"->\"yes\": what assert sees decides). Each combination runs the real okane-golden helper (Golden::new then assert) in a fresh process inside a fresh directory that also holds a \
          sentinel file and a neighbouring golden. Observed: exit status (0 ok / 3 new failed / 101 panic), a before/after snapshot of the directory (names, bytes, \
          inode, mtime) and an strace log of file and write system calls. Oracle: variable unset or empty: \
          succeeds iff got == content with CRLF->LF, absent file is an error, snapshot identical, no write-class system call (open with O_WRONLY/O_RDWR/O_CREAT/O_TRUNC, \
